@@ -29,7 +29,7 @@ CHECKS = {
     text="Stateless model checking of raw Write through the AsyncLogger with callers that overwrite their buffer after every call: 1-2 writers x 2-3 writes, 1-2 appenders, appender-reference level settings '', ERROR, INFO~WARN, 3 policies, a slow appender; every appender sees each payload exactly once, unaltered, in per-writer order. Sequential part (enumeration): all sequences of <=3 writes over 5 payloads (empty, binary, multi-line, 12 KB) with buffer reuse x sync/async x layout x 1-2 references x level settings, handle identity, Refresh fails for an unconfigured requested name; raw writes through every logger kind (logger-kinds family).",
     note=SCHED_NOTE, technique="stateless model checking (controlled scheduler, preemption-bounded DFS over the instrumented implementation)", design="DESIGN.md section 3 C12"),
  "C13": dict(
-    text="Stateless model checking of the real RollingFileAppender on an in-memory filesystem and virtual clock: all schedules (<=2 preemptions) x all placements of <=2-3 interval boundaries (the clock may cross a boundary at any time.Now call) of 1-2 writers x 2-3 writes, a pre-existing file, a Stop/Start cycle; every id exactly once over all files, file names name.<14 digits>, append-only opens, no write older than its file's name, single writer: a write after a boundary lands in a file of the new interval. Two known findings (writer or rotation suspended across two rotations) are matched by history predicates.",
+    text="Stateless model checking of the real RollingFileAppender on an in-memory filesystem and virtual clock: all schedules (<=2 preemptions) x all placements of <=2-3 interval boundaries (the clock may cross a boundary at any time.Now call) of 1-2 writers x 2-3 writes, a pre-existing file, a Stop/Start cycle; every id exactly once over all files, file names name.<14 digits>, append-only opens, no write older than its file's name, single writer: a write after a boundary lands in a file of the new interval. Two known findings (writer or rotation suspended across two rotations) are matched by history predicates. Model<->OS: every execution of three conformance scenarios (14 k traces in the quick tier) is replayed call by call against a real temporary directory (same error class per call, same directory listing and file contents at the end).",
     note=SCHED_NOTE, technique="stateless model checking (controlled scheduler + virtual clock, preemption/tick-bounded DFS over the instrumented implementation)", design="DESIGN.md section 3 C13"),
  "C19": dict(
     text="Fault enumeration on top of the C13 model checking: every filesystem call (open, write, sync, close, readdir, remove) may fail (ENOENT / EIO / short write) within a fault budget of 2 (thorough 3), combined with boundary placements and schedules: no panic, no blocked call; when only creations fail nothing is lost and a later interval attempts creation again.",
@@ -45,9 +45,9 @@ CHECKS = {
     note="Trusted: the reference model in harness/enum/c01.go; explicit '~MAX' upper bounds, one appender referenced twice and ranges with inner blanks are excluded as ambiguous. " + SCHED_NOTE,
     technique="explicit-state enumeration of configurations x events against a reference model (real code driven through the public API)", design="DESIGN.md section 3 C01", engine="enum+zzvrt"),
  "C02": dict(
-    text="Bounded-exhaustive enumeration of routing configurations: 10 registered tags sharing prefixes x every assignment of tag lists (<=2 patterns from 16 literals/wildcards/malformed wildcards, with blanks and duplicate separators) to 2 loggers, single patterns to 3 (thorough: <=2 on 3 loggers, single on 4) x root none/plain/with-tags; Refresh error-ness and the serving logger of every tag compared with a longest-prefix router model (exactly one recorder receives each event).",
-    note="Trusted: the router model in harness/enum/c02.go. Map iteration order inside Refresh is Go's randomised order (sampled, not enumerated, in this check); the empty-prefix wildcard '_*' is excluded.",
-    technique="explicit-state enumeration of configurations against a reference router model", design="DESIGN.md section 3 C02", engine="enum"),
+    text="Bounded-exhaustive enumeration of routing configurations: 10 registered tags sharing prefixes x every assignment of tag lists (<=2 patterns from 16 literals/wildcards/malformed wildcards, with blanks and duplicate separators) to 2 loggers, single patterns to 3 (thorough: <=2 on 3 loggers, single on 4) x root none/plain/with-tags; Refresh error-ness and the serving logger of every tag compared with a longest-prefix router model (exactly one recorder receives each event). Map iteration order: in the instrumented build every `for range` over a map inside Refresh/Destroy goes through an explorer-controlled order; 456 routing configurations are run under EVERY single deviation (thorough: pairs on a subset) of every map iteration and must give the same verdict.",
+    note="Trusted: the router model in harness/enum/c02.go and harness/sched/maporder.go. The empty-prefix wildcard '_*' is excluded. Map-order exploration covers single (thorough: some double) deviations from ascending order, not all permutations.",
+    technique="explicit-state enumeration of configurations against a reference router model", design="DESIGN.md section 3 C02", engine="enum+zzvrt"),
  "C07": dict(
     text="Bounded-exhaustive enumeration: every field list of <=2 (thorough 3) fields over 130+ constructor cases (every public constructor, every Any dispatch arm, boundary numbers, NaN/Inf, hostile keys/strings, Reflect, custom Array, Object to depth 4, FieldsFromMap) x context string/fields through the real JSON layout; the line is tokenised order- and duplicate-preserving with encoding/json and compared with a reference value tree (integers exact, floats bit-exact, strings with U+FFFD replacement). Plus every grammatical encoder call sequence of <=9 (thorough 11) calls against a reference writer.",
     note="Trusted: encoding/json's tokenizer, the reference value tree in harness/enum/enc.go. Values outside the alphabet are not covered.",
@@ -67,7 +67,7 @@ CHECKS = {
     text="Complete finite product over generated call sites: 16 entry-point forms (Record with skip 1 and 2) x 7 call shapes (plain, closure, deferred closure, goroutine, method value, generic helper, inlinable helper) x {default, fast} x {first, repeated call = cache hit} x enableCaller on/off set through Refresh; oracle: runtime.Caller evaluated on the line directly above the call (inlining left on).",
     note="Trusted: runtime.Caller; the generated file harness/enum/c11_sites.go.", technique="exhaustive enumeration of a finite product of programs x configurations", design="DESIGN.md section 3 C11", engine="enum"),
  "C15": dict(
-    text="Bounded-exhaustive enumeration around 5 base configurations covering every registered appender and logger type and element shape: all single deviations (thorough: all pairs) - key respelled kebab/snake, ${prop} present/absent, attribute removed (default or error), ill-typed values incl. int32 overflow, alternative values, sub-tree inline as a name! expression - with expected error-ness and a reflection dump of the instantiated plugins compared with the base; totality: every key deleted / every value replaced by 14 hostile strings / every key mangled 10 ways -> nil or error, never a panic, and a valid configuration loads after Destroy; every registered type from its minimal configuration; the logger-kinds family under the scheduler.",
+    text="Bounded-exhaustive enumeration around 5 base configurations covering every registered appender and logger type and element shape: all single deviations (thorough: all pairs) - key respelled kebab/snake, ${prop} present/absent, attribute removed (default or error), ill-typed values incl. int32 overflow, alternative values, sub-tree inline as a name! expression - with expected error-ness and a reflection dump of the instantiated plugins compared with the base; totality: every key deleted / every value replaced by 14 hostile strings / every key mangled 10 ways -> nil or error, never a panic, and a valid configuration loads after Destroy; every registered type from its minimal configuration; the logger-kinds family and a map-iteration-order family (properties applied, routing unchanged under every single deviation of every map iteration in Refresh) under the scheduler.",
     note="Trusted: the deviation table (expected defaults) in harness/enum/c15.go. Contradictory duplicates (same key under two spellings) are excluded. " + SCHED_NOTE,
     technique="small-scope enumeration of configurations against expected outcomes + differential comparison", design="DESIGN.md section 3 C15", engine="enum+zzvrt"),
  "C16": dict(
